@@ -71,6 +71,8 @@ def specs(tier, seed):
     for dl in (None, 0, 3, -1):
         add("A1", [["e", "E_trans"]], "E", default_label=dl, variant=f"default_label={dl}")
     add("M1", [["e", "E_transrot"]], "E", default_label=0, variant="mol-default_label=0")
+    add("A1", [["e", "E_trans"], ["d", "D_ball"]], "E|D", default_label=-1, variant="default_label=-1")
+    add("A1", [["e", "E_trans"], ["d", "D_ball"]], "E|D", default_label=-2, variant="default_label=-2", labels=[-2])
     if tier == "thorough":
         add("A1", [["e", "E_trans"], ["d", "D_ball"], ["f", "E_trans"]], "E|D|E", depth=3)
         add("A2", [["e", "E_trans*3"]], "E*3", depth=2)
@@ -103,6 +105,7 @@ def _probe(sysm):
         "nex": sysm.mc.number_of_exchange_particles,
         "template": digest(atoms_snapshot(sysm.mc.exchange_atoms)),
         "n": len(atoms),
+        "pos": atoms.positions.copy(),
     }
 
 
@@ -205,6 +208,13 @@ def _check_execution(spec, ch, init, tsize, trials, counters, sets):
         added = [u for u in u1.tolist() if u not in set(u0.tolist())]
         if t.verdict is not True and (removed or added):
             return None  # atoms changed by a non-accepted trial: C03's statement, not C05's
+        # a do-not-touch (negative) label is honoured: such atoms are never displaced
+        if not removed and not added and len(u0) == len(u1) and pre["labels"]:
+            moved = np.flatnonzero(np.abs(post["pos"] - pre["pos"]).max(axis=1) > 0)
+            if len(moved):
+                ok_for_some_move = any(len(lab) == len(u0) and all(lab[i] >= 0 for i in moved) for lab in pre["labels"])
+                if not ok_for_some_move:
+                    return V("negative-label-atom-displaced", f"atoms {moved.tolist()} moved although every label-bearing move marks at least one of them as do-not-touch (labels {[l.tolist() for l in pre['labels']]})")
         # ---- model update
         if added:
             if tsize == 0 or len(added) % tsize:
